@@ -186,7 +186,7 @@ static void thread_entry(int tid, void *arg) { run_program(tid, (Shared *)arg, t
 // ------------------------------------------------------------------ execution of one plan
 struct Viol { string cls, detail; };
 struct Stats {
-    uint64_t plans = 0, steps = 0, events = 0, ctx_switches = 0, seq_steps = 0, ops = 0, lib_calls = 0, threads_hist[17] = { 0 }, policy_hist[4] = { 0 };
+    uint64_t plans = 0, steps = 0, events = 0, ctx_switches = 0, seq_steps = 0, ops = 0, lib_calls = 0, threads_hist[17] = { 0 }, policy_hist[5] = { 0 };
     uint64_t write_shared = 0, sync_ops = 0, atomic_ops = 0, pseudo_writes = 0, outcome_cmp = 0, globals_dirty_after_seq = 0, races_seen = 0;
     std::set<uint64_t> interleavings, plan_hashes, nontrivial;
     uint64_t kind[NKINDS] = { 0 };
@@ -270,7 +270,7 @@ static void run_plan(const Plan &p, bool want_log, RunOut &ro, bool count = true
     for (void *o : sh.objs) free(o);
     if (count) {
         ST.plans++; ST.steps += res.steps; ST.events += res.events; ST.ctx_switches += res.ctx_switches; ST.seq_steps += seq_steps; ST.ops += p.ops.size();
-        ST.threads_hist[p.nthreads]++; ST.policy_hist[cfg.policy & 3]++;
+        ST.threads_hist[p.nthreads]++; ST.policy_hist[cfg.policy % 5]++;
         ST.write_shared += res.write_shared_locations; ST.sync_ops += res.sync_ops; ST.atomic_ops += res.atomic_ops; ST.pseudo_writes += res.pseudo_writes;
         if (dirty) ST.globals_dirty_after_seq++;
         ST.races_seen += res.races.size();
@@ -361,8 +361,9 @@ static Plan gen_plan(const string &cfg, uint64_t seed, long long index) {
     else if (cfg == "rr") { p.policy = 2; static const uint64_t Q[] = { 1, 2, 5, 17 }; p.quantum = Q[sim_below(&s, 4)]; }
     else if (cfg == "random") { p.policy = 1; static const uint64_t D[] = { 2, 4, 16, 64, 256 }; p.den = D[sim_below(&s, 5)]; }
     else { // swarm over strategies
-        unsigned k = (unsigned)sim_below(&s, 10);
-        if (k < 4) { p.policy = 1; static const uint64_t D[] = { 2, 4, 16, 64, 256 }; p.den = D[sim_below(&s, 5)]; }
+        unsigned k = (unsigned)sim_below(&s, 12);
+        if (k >= 10) { p.policy = 4; static const uint64_t D[] = { 16, 64, 256 }; p.den = D[sim_below(&s, 3)]; }
+        else if (k < 4) { p.policy = 1; static const uint64_t D[] = { 2, 4, 16, 64, 256 }; p.den = D[sim_below(&s, 5)]; }
         else if (k < 7) { p.policy = 3; p.depth = 1 + (int)sim_below(&s, 4); }
         else { p.policy = 2; static const uint64_t Q[] = { 1, 2, 5, 17 }; p.quantum = Q[sim_below(&s, 4)]; }
     }
@@ -391,7 +392,7 @@ static sj::Value stats_json() {
     j.set("plans_where_library_statics_changed", ST.globals_dirty_after_seq); j.set("racing_pairs_seen", ST.races_seen);
     j.set("library_writable_static_bytes", (long long)rt::library_writable_bytes());
     sj::Value th = sj::Value::object(); for (int i = 1; i <= 16; i++) if (ST.threads_hist[i]) th.set(std::to_string(i), ST.threads_hist[i]); j.set("plans_by_threads", th);
-    sj::Value ph = sj::Value::object(); const char *pn[4] = { "replay", "random", "round_robin", "pct" }; for (int i = 0; i < 4; i++) ph.set(pn[i], ST.policy_hist[i]); j.set("plans_by_strategy", ph);
+    sj::Value ph = sj::Value::object(); const char *pn[5] = { "replay", "random", "round_robin", "pct", "targeted" }; for (int i = 0; i < 5; i++) ph.set(pn[i], ST.policy_hist[i]); j.set("plans_by_strategy", ph);
     sj::Value k = sj::Value::object(); for (int i = 0; i < NKINDS; i++) k.set(KNAME[i], ST.kind[i]); j.set("ops_by_kind", k);
     j.set("distinct_interleavings_this_worker", (long long)ST.interleavings.size());
     return j;
